@@ -2514,3 +2514,75 @@ pub fn c16_dial_ledger(nd: &mut Nondet) {
     for q in started.iter() { check("c16k.every-query-ends-with-a-terminal-event", finished.contains(q)); }
     cover("c16k.quiescent");
 }
+
+// ------------------------------------------------------------------------------------------ C02 noise transport stream
+/// C02: bytes written into one end of an established Noise session come out of the other end unchanged, in order,
+/// without loss or duplication, for write sizes around the frame boundary, several reader buffer sizes, both
+/// buffering configurations and scripted fragmentation of the carrier.
+pub fn c02_noise_stream(nd: &mut Nondet) {
+    let (dialer_cipher, listener_cipher) = noise_hooks::cipher_pair();
+    let mut link = Link { ab: Vec::new(), ab_read: 0, ba: Vec::new(), ba_read: 0, a_closed: false, b_closed: false };
+    let lp = &mut link as *mut Link;
+    let mut budget = param("io_budget", 2);
+    let bp = &mut budget as *mut u64;
+    let end_a = LinkEnd { link: lp, is_a: true, nd: nd as *mut Nondet, budget: bp };
+    let end_b = LinkEnd { link: lp, is_a: false, nd: nd as *mut Nondet, budget: bp };
+    let read_ahead = 1 + nd.choose("read_ahead_frames", 2) as usize;
+    let write_buffers = 1 + nd.choose("write_buffer_frames", 2) as usize;
+    let mut writer = noise_hooks::socket(end_a, dialer_cipher, read_ahead, write_buffers);
+    let mut reader = noise_hooks::socket(end_b, listener_cipher, read_ahead, write_buffers);
+
+    // write sizes: tiny ones, and sizes at and around the 65519/65520-byte frame boundary
+    let big = param("big_frames", 0) == 1;
+    let (first, second, reader_buf): (usize, usize, usize) = if big {
+        let w = match nd.choose("write_size", 5) { 0 => 65519usize, 1 => 65520, 2 => 65521, 3 => 65536, _ => 131040 };
+        let extra = nd.choose("second_write", 2) as usize;     // 0: none, 1: one more byte
+        let r = match nd.choose("reader_buffer", 3) { 0 => 65520usize, 1 => 70000, _ => 16384 };
+        (w, extra, r)
+    } else {
+        let w = match nd.choose("write_size", 3) { 0 => 1usize, 1 => 2, _ => 300 };
+        let extra = match nd.choose("second_write", 3) { 0 => 0usize, 1 => 1, _ => 300 };
+        let r = match nd.choose("reader_buffer", 3) { 0 => 1usize, 1 => 7, _ => 300 };
+        (w, extra, r)
+    };
+    let total = first + second;
+    let data = nd.pattern(total);
+    let waker = noop_waker();
+    let mut cx = Context::from_waker(&waker);
+    let mut written = 0usize;
+    let mut delivered = 0usize;
+    let mut buf = vec![0u8; reader_buf];
+    let mut rounds = 0usize;
+    let max_rounds = 40 + 2 * (total / reader_buf);
+    while delivered < total {
+        rounds += 1;
+        if rounds > max_rounds { check("c02.everything-written-and-flushed-is-delivered", false); return; }
+        // ---- writer: the application writes `first` bytes, then `second` bytes, then flushes
+        if written < total {
+            let end = if written < first { first } else { total };
+            match futures::io::AsyncWrite::poll_write(Pin::new(&mut writer), &mut cx, &data[written..end]) {
+                Poll::Ready(Ok(n)) => { check("c02.write-accepts-at-most-what-was-offered", n >= 1 && n <= end - written); written += n; }
+                Poll::Ready(Err(_)) => { check("c02.write-on-a-healthy-carrier-succeeds", false); return; }
+                Poll::Pending => { cover("c02.write-pending"); }
+            }
+        } else {
+            match futures::io::AsyncWrite::poll_flush(Pin::new(&mut writer), &mut cx) {
+                Poll::Ready(Err(_)) => { check("c02.flush-on-a-healthy-carrier-succeeds", false); return; }
+                _ => {}
+            }
+        }
+        // ---- reader
+        match futures::io::AsyncRead::poll_read(Pin::new(&mut reader), &mut cx, &mut buf[..]) {
+            Poll::Ready(Ok(n)) => {
+                check("c02.read-returns-data-on-an-open-stream", n >= 1 && n <= reader_buf);
+                check("c02.nothing-is-delivered-that-was-not-written", delivered + n <= written);
+                check("c02.bytes-arrive-unchanged-in-order", buf[..n] == data[delivered..delivered + n]);
+                delivered += n;
+                cover("c02.read");
+            }
+            Poll::Ready(Err(_)) => { check("c02.read-on-a-healthy-stream-succeeds", false); return; }
+            Poll::Pending => { cover("c02.read-pending"); }
+        }
+    }
+    cover("c02.delivered");
+}
